@@ -2,6 +2,7 @@ package main
 
 import (
 	"fmt"
+	"regexp"
 	"strings"
 
 	"github.com/wolimst/lib-secs2-hsms-go/pkg/ast"
@@ -19,7 +20,7 @@ func init() {
 
 // ---------------------------------------------------------------- C04
 
-var smlNames = []string{"", "name", "x.", "a<b", "n/1", "Zz.9", "a\"q", "é日本", "Msg[1]", "a>b", "q?", "S", "Sx1", "F1", "e"}
+var smlNames = []string{"", "name", "x.", "a<b", "n/1", "Zz.9", "a\"q", "é日本", "Msg[1]", "a>b", "q?", "S", "Sx1", "F1", "e", "Yield%", "a%%b", "%s", "50%d", "%!v", "a\\b", "{x}", "`q`", "$1"}
 
 // expressible: a random message that SML can express (ellipses numbered in order of appearance,
 // a name the header lexer reads back as one name, W only on odd functions)
@@ -253,22 +254,37 @@ func driverSizes(c *Ctx) {
 		}
 	}
 	// ASCII variables: bounds kept, printed back, enforced when filled
-	forms := []string{"", "[0]", "[3]", "[2..]", "[..4]", "[1..3]", "[0..0]", "[5..5]", "[ 2 .. 6 ]", "[7..]", "[..0]", "[3..2]", "[18446744073709551616]", "[1..99999999999999999999]"}
+	forms := []string{"", "[0]", "[3]", "[2..]", "E[2..4]", "E[3]", "E[1..]", "E[..2]", "[..4]", "[1..3]", "[0..0]", "[5..5]", "[ 2 .. 6 ]", "[7..]", "[..0]", "[3..2]", "[18446744073709551616]", "[1..99999999999999999999]"}
 	for _, sz := range forms {
 		if c.want(idx) {
+			viaEll := strings.HasPrefix(sz, "E") // the variable sits in a group that an ellipsis repeats
+			sz = strings.TrimPrefix(sz, "E")
 			text := fmt.Sprintf("S1F1 W H->E\n<L <A%s name1>>\n.", sz)
+			if viaEll {
+				text = fmt.Sprintf("S1F1 W H->E\n<L <A%s name1> ...>\n.", sz)
+			}
 			ev := parseEvent(text)
 			ev["ev"], ev["how"] = "asciivar", "asciivar"
 			fills := []interface{}{}
 			var msgs []*ast.DataMessage
 			try(func() { msgs, _, _ = sml.Parse(text) })
 			ev["printed"] = []int{}
+			ev["viaell"], ev["otherlen"] = viaEll, 0
 			if len(msgs) == 1 {
+				ev["otherlen"] = maxLenOf(msgs[0])
 				ev["printed"] = textChars(msgs[0].String())
+				tmpl, name := msgs[0], "name1"
+				if viaEll {
+					// expand the group once, then fill the renamed variable of the first copy; the second is removed again
+					try(func() {
+						tmpl = tmpl.FillVariables(map[string]interface{}{"...[0]": 1}).FillVariables(map[string]interface{}{"name1[1]": strings.Repeat("x", maxLenOf(tmpl))})
+					})
+					name = "name1[0]"
+				}
 				for n := 0; n <= 9; n++ {
 					s := strings.Repeat("x", n)
 					var filled *ast.DataMessage
-					refused, _ := try(func() { filled = msgs[0].FillVariables(map[string]interface{}{"name1": s}) })
+					refused, _ := try(func() { filled = tmpl.FillVariables(map[string]interface{}{name: s}) })
 					f := J{"len": n, "refused": refused, "item": J{"f": "none"}}
 					if !refused {
 						f["item"] = projItem(ast.VerifDataItem(filled))
@@ -282,6 +298,24 @@ func driverSizes(c *Ctx) {
 		}
 		idx++
 	}
+}
+
+// maxLenOf: a length the first ASCII variable of the message accepts for sure (its lower bound)
+func maxLenOf(m *ast.DataMessage) int {
+	n := 0
+	var walk func(v *ast.VerifNode)
+	walk = func(v *ast.VerifNode) {
+		if v.Kind == "A" && !v.IsValue && v.Min > n {
+			n = v.Min
+		}
+		for _, k := range v.Items {
+			if k != nil {
+				walk(k)
+			}
+		}
+	}
+	walk(ast.VerifProject(ast.VerifDataItem(m)))
+	return n
 }
 
 // ---------------------------------------------------------------- C08
@@ -358,7 +392,7 @@ func (g *Gen) itemLexemes(depth int) []string {
 	return append(t, ">")
 }
 
-var commentTexts = []string{"", " c", " comment with words", " <L> . S1F1 \"", " é", " caf\u00e0", " \u0445", " \u2003", " x\u00a0", " \u0085", " tab\t", " //", " \"", "\xff", " [1..2]"}
+var commentTexts = []string{" was:\r <U1 2>", " 10%\rdone", " a\rb", "", " c", " comment with words", " <L> . S1F1 \"", " é", " caf\u00e0", " \u0445", " \u2003", " x\u00a0", " \u0085", " tab\t", " //", " \"", "\xff", " [1..2]"}
 
 func (g *Gen) separator(first, last bool) string {
 	var sb strings.Builder
@@ -423,6 +457,24 @@ func (g *Gen) flipCase(lex string, inHeader bool, idx int) string {
 	return lex
 }
 
+var sizeLexRe = regexp.MustCompile(`^\[ ?([0-9]*) ?(\.\.)? ?([0-9]*) ?\]$`)
+
+// respace re-renders a size declaration with other white space between its parts (still one token)
+func (g *Gen) respace(lex string) string {
+	m := sizeLexRe.FindStringSubmatch(lex)
+	if m == nil {
+		return lex
+	}
+	ws := func() string { return []string{"", "", " ", "\t", "\n", "\r\n", " \r\n "}[g.pick(7)] }
+	out := "[" + ws()
+	for _, part := range m[1:] {
+		if part != "" {
+			out += part + ws()
+		}
+	}
+	return out + "]"
+}
+
 func render(g *Gen, toks []string, flip bool) string {
 	var sb strings.Builder
 	inHeader, hidx := true, 0
@@ -431,6 +483,9 @@ func render(g *Gen, toks []string, flip bool) string {
 		lex := t
 		if flip {
 			lex = g.flipCase(t, inHeader, hidx)
+			if !inHeader && strings.HasPrefix(lex, "[") {
+				lex = g.respace(lex)
+			}
 		}
 		sb.WriteString(lex)
 		if inHeader {
